@@ -984,7 +984,7 @@ impl Gen {
                 if !rng.pct(10) {
                     return None;
                 }
-                Ev::ScaleProbe { n: *rng.pick(&[20_000usize, 25_000]) }
+                Ev::ScaleProbe { n: *rng.pick(&[10_000usize, 12_000]) }
             }
             x if x == Op::EncryptOtherThread as usize => {
                 let es: Vec<usize> = (0..w.encryptors.len()).filter(|e| w.encryptors[*e].mpk.is_some()).collect();
